@@ -83,13 +83,19 @@ def cmd_str(c):
 # synthetic volumes
 # ---------------------------------------------------------------------------
 def n_levels(shape, voxel, target=64):
-    """Number of scales the documented generator rule yields without
-    --max-scales (used only for the DESIGN prediction cfg.nall -> drift only)."""
-    import math
-    best = min(voxel)
-    delays = [int(round(math.log2(v / best))) for v in voxel]
-    lv = max(math.ceil(math.log2(s / target)) - b for s, b in zip(shape[:3], delays))
-    return max(lv, 1)
+    """Number of scales generate-scales-info yields without --max-scales for
+    this volume class.  Used only as the DESIGN parameter cfg.nall (-> drift
+    only) and to keep volume classes within the model's 3 scales, so it is
+    simply asked from the generator itself (its correctness is C08's topic)."""
+    from neuroglancer_scripts.dyadic_pyramid import fill_scales_for_dyadic_pyramid
+    info = {"type": "image", "data_type": "uint8", "num_channels": 1,
+            "scales": [{"size": [int(v) for v in shape[:3]], "encoding": "raw",
+                        "resolution": [float(v) * 1e6 for v in voxel], "voxel_offset": [0, 0, 0]}]}
+    try:
+        fill_scales_for_dyadic_pyramid(info, target_chunk_size=target)
+        return len(info["scales"])
+    except Exception:
+        return 1
 
 
 def make_volume(path, spec, rng):
@@ -108,6 +114,20 @@ def make_volume(path, spec, rng):
         a = np.where(flip, rng.integers(0, 7, size=shape[:3]), a) * spec.get("label_step", 1)
         if len(shape) == 4:
             a = np.stack([a + k for k in range(shape[3])], axis=-1)
+    elif kind == "blobs":
+        # background 0 with a few small label boxes, placed independently per
+        # channel: large uniform regions are shared between the channels
+        nch = shape[3] if len(shape) == 4 else 1
+        chans = []
+        for k in range(nch):
+            c = np.zeros(shape[:3], dtype=np.int64)
+            for _ in range(spec.get("nblobs", 3)):
+                lo = [int(rng.integers(0, max(1, s - 2))) for s in shape[:3]]
+                ext = [int(rng.integers(1, 5)) for _ in range(3)]
+                c[lo[0]:lo[0] + ext[0], lo[1]:lo[1] + ext[1], lo[2]:lo[2] + ext[2]] = \
+                    int(rng.integers(1, 6)) * spec.get("label_step", 1)
+            chans.append(c)
+        a = np.stack(chans, axis=-1) if len(shape) == 4 else chans[0]
     elif kind == "ramp":
         idx = np.indices(shape[:3]).sum(axis=0)
         a = (idx * 7 + rng.integers(0, 3, size=shape[:3])) % (hi + 1)
@@ -521,8 +541,9 @@ def build_args(c, env):
     d = env["dirs"][c["d"]]
     lay = LAYOUTS[env["lay"][c["d"]]]
     explicit = env.get("explicit", False)
+    sharg = ",".join(str(v) for v in env["shard_triple"]) if env.get("shard_triple") else "1,1,0"
     if op == "GenInfo":
-        sh = ["--sharding", SHARDING_ARG[c["sh"]]] if c["sh"] in SHARDING_ARG else []
+        sh = ["--sharding", sharg] if c["sh"] in SHARDING_ARG else []
         return MODULES[op], ["--generate-info"] + sh + [f for f in lay if f != "--flat"] + [env["vol"], d]
     if op == "GenScales":
         mx = {"one": ["--max-scales", "1"], "two": ["--max-scales", "2"]}.get(c["max"], [])
@@ -532,7 +553,7 @@ def build_args(c, env):
     if op == "Vol":
         # the sharded example of the documentation repeats --sharding here; a
         # user does so only for a directory whose info declares sharding
-        sh = ["--sharding", "1,1,0"] if (env.get("shflag", {}).get(c["d"])
+        sh = ["--sharding", sharg] if (env.get("shflag", {}).get(c["d"])
                                          and _info_declares_sharding(d)) else []
         return MODULES[op], lay + sh + [env["vol"], d]
     if op == "Compute":
@@ -575,14 +596,24 @@ def apply_edit(c, env):
     for s in info["scales"]:
         if c["sh"] in SHARDING_SPEC:
             spec = dict(SHARDING_SPEC[c["sh"]])
+            if env.get("shard_triple"):
+                mb, sb, pb = env["shard_triple"]
+                spec.update({"minishard_bits": int(mb), "shard_bits": int(sb), "preshift_bits": int(pb)})
             enc = env.get("shard_enc", "gzip")
-            spec["minishard_index_encoding"] = enc
+            spec["minishard_index_encoding"] = env.get("shard_index_enc", enc)
             spec["data_encoding"] = enc
             s["sharding"] = spec
         elif c["sh"] == "nosh":
             s.pop("sharding", None)
     if c["type"] not in ("-", "image", "segmentation"):
         info["data_type"] = c["type"]
+    if c["enc"].startswith("bs"):
+        # other compressed_segmentation block size: "bs4" or "bs16x8x4"
+        dims = [int(v) for v in c["enc"][2:].split("x")]
+        dims = dims * 3 if len(dims) == 1 else dims
+        for s in info["scales"]:
+            if s.get("encoding") == "compressed_segmentation":
+                s["compressed_segmentation_block_size"] = dims
     with open(p, "w") as f:
         json.dump(info, f, separators=(",", ":"), sort_keys=True)
     return 0
@@ -604,7 +635,9 @@ def run_program(workdir, prog, name="p"):
     v4 = vol if vol.ndim == 4 else vol[..., np.newaxis]
     volidx = it.add(np.moveaxis(v4, (0, 1, 2, 3), (3, 2, 1, 0)))
     env = {"vol": volpath, "dirs": dirs, "lay": prog["lay"], "explicit": prog.get("explicit", False),
-           "urls": {}, "shflag": {}, "tgt": prog.get("tgt"), "shard_enc": prog.get("shard_enc", "gzip")}
+           "urls": {}, "shflag": {}, "tgt": prog.get("tgt"), "shard_enc": prog.get("shard_enc", "gzip"),
+           "shard_triple": prog.get("shard_triple"),
+           "shard_index_enc": prog.get("shard_index_enc", prog.get("shard_enc", "gzip"))}
     servers = []
     case = {"cfg": {"perfect": bool(prog["vol"].get("perfect", True)),
                     "nall": int(prog["vol"].get("nall", 3))},
